@@ -59,10 +59,12 @@ let handle kind c =
          let before = img_copy im in
          let diffs = ref [] in
          read_runs c (fun i v -> diffs := (i, v) :: !diffs);
+         let max_end = next_n c in
          let nch = next_int c in
          let changed = List.init nch (fun _ ->
+             let what = next c in
              let nm = next_bytes c in let off = next_n c in let nl = next_n c in
-             let b = next_n c in let a = next_n c in (nm, off, nl, b, a)) in
+             let b = next_n c in let a = next_n c in (what, nm, off, nl, b, a)) in
          (* the real file after the call *)
          List.iter (fun (i, v) -> img_set im i v) !diffs; im.len <- min newlen (1 lsl 20);
          let where = Printf.sprintf "op-%d-%s-%s" opi ok dmg in
@@ -96,12 +98,24 @@ let handle kind c =
             else prop "hang" (Printf.sprintf "%s: the call did not return within the step budget" where)
           | "panic" -> prop "panic" (Printf.sprintf "%s: the call panicked" where)
           | _ -> ());
-         List.iter (fun (nm, off, nl, b, a) ->
+         List.iter (fun (what, nm, off, nl, b, a) ->
              let lim = rd32 f h in
              let lim = if lim = N0 then table_end h else lim in
-             let cls = if N.ltb lim (N.add off (N.add (n_of_int 16) nl)) then "limit-below-records" else "other-counter-changed" in
-             prop cls (Printf.sprintf "%s: the call on %s changed the value of counter %s at %s from %s to %s (limit found in the file: %s)"
-                         where (tok_of_bytes name) (tok_of_bytes nm) (hexn off) (hexn b) (hexn a) (hexn lim))) changed;
+             ignore nl;
+             (* the limit found in the file does not cover all linked records: the known class *)
+             let cls = if N.ltb lim max_end then "limit-below-records" else "other-counter-changed" in
+             prop cls (Printf.sprintf "%s: the call on %s %s counter %s at %s (value before %s, after %s; limit found in the file: %s)"
+                         where (tok_of_bytes name) (if what = "lost" then "made unreachable the" else "changed the value of")
+                         (tok_of_bytes nm) (hexn off) (hexn b) (hexn a) (hexn lim))) changed;
+         (* frame rule (C05_newcounter_frame) on what the implementation wrote: inside the header and
+            the hash table only the limit word and the head word of the name's own bucket *)
+         if ok = "new" && status = "ok" then begin
+           let te = int_of_n (table_end h) and hi = int_of_n h and ho = int_of_n (head_off h name) in
+           (match List.filter (fun (i, _) -> i < te && not (i >= hi && i < hi + 4) && not (i >= ho && i < ho + 4)) !diffs with
+            | (i, _) :: _ ->
+              prop "table-overwritten" (Printf.sprintf "%s: newCounter changed byte %x inside the header / hash table (not the limit word, not the head of its own bucket %x)" where i ho)
+            | [] -> ())
+         end;
          (* ---- model = implementation ---- *)
          if not !diverged then begin
            let expect_hang = (mres = ["FUEL"]) in
